@@ -4862,6 +4862,13 @@ unsigned int func_body_emit_ffi_param_list(param_list * params, module * module_
     return total_count;
 }
 
+#ifdef NEVER_VERIF
+/* verification hook: per-function metadata (entry address, parameter count, free variable
+   count, is_ffi, name) reported while function bodies are emitted */
+void (*nev_verif_func_meta)(unsigned int addr, unsigned int params, unsigned int freevars,
+                            int is_ffi, const char * name) = NULL;
+#endif
+
 int func_body_emit_ffi(func * func_value, module * module_value,
                        func_list_weak * list_weak, int * result)
 {
@@ -4882,6 +4889,13 @@ int func_body_emit_ffi(func * func_value, module * module_value,
 
     labelA = bytecode_add(module_value->code, &bc);
     func_value->addr = labelA->addr;
+#ifdef NEVER_VERIF
+    if (nev_verif_func_meta != NULL)
+    {
+        nev_verif_func_meta(labelA->addr, count, 0, 1,
+                            func_value->decl != NULL ? func_value->decl->id : NULL);
+    }
+#endif
     
     if (func_value->decl != NULL && func_value->decl->params != NULL)
     {
@@ -4915,6 +4929,15 @@ int func_body_emit_native(func * func_value, module * module_value,
     bc.type = BYTECODE_FUNC_DEF;
     labelA = bytecode_add(module_value->code, &bc);
     func_value->addr = labelA->addr;
+#ifdef NEVER_VERIF
+    if (nev_verif_func_meta != NULL)
+    {
+        nev_verif_func_meta(labelA->addr,
+                            (func_value->decl != NULL && func_value->decl->params != NULL) ? func_value->decl->params->count : 0,
+                            func_value->freevars != NULL ? func_value->freevars->count : 0, 0,
+                            func_value->decl != NULL ? func_value->decl->id : NULL);
+    }
+#endif
 
     if (func_value->body && func_value->body->exprs)
     {
